@@ -122,3 +122,29 @@ HARNESSES = [h_emitted_compact_token_is_rfc, h_reference_compact_token_is_accept
 HARNESSES += [_c01.h_verify_rsa, _c01.h_verify_ec, _c01.h_verify_eddsa, _c01.h_verify_hmac,
               _c03.h_sign_verify_rsa, _c03.h_sign_verify_ec, _c03.h_sign_verify_eddsa, _c03.h_sign_verify_hmac, _c03.h_ecdsa_int_codec,
               _c03.h_compact_roundtrip, _c03.h_flattened_roundtrip]
+
+
+# ---- seeds for the native witness search: correctly signed tokens with foreign header spellings ----
+def _seed_foreign_spelling(n_keys):
+    def gen(rnd):
+        from pyvc import reference
+        from pyvc.spec import ref_B64U
+        ki = rnd.randrange(n_keys)
+        spec = KEYS[ki] if n_keys == len(KEYS) else [KEYS[0], KEYS[2], KEYS[4], KEYS[6], KEYS[10]][ki]
+        alg = spec[0]
+        spelling = rnd.choice(['{"alg": "%s"}', '{ "alg":"%s" }', '{"typ":"JWT",\r\n "alg":"%s"}', '{"alg":"%s","kid":"\\u0061"}', '{"kid":"a\\/b","alg":"%s"}',
+                               '{"alg":"%s"}'])
+        hb = (spelling % alg).encode()
+        p = bytes(rnd.randrange(256) for _ in range(rnd.choice([0, 4])))
+        k = bytes(rnd.randrange(256) for _ in range(32))
+        si = ref_B64U(hb) + b"." + ref_B64U(p)
+        if spec[1] == "oct":
+            s = reference.sign(alg, k, si)
+        else:
+            s = reference.sign(alg, reference.raw_key(spec[1], "K", spec[2], 2048), si)
+        return {"alg": ki, "hb": hb, "p": p, "s": s, "k": k, "verifier_holds_private": rnd.randrange(2)}
+    return gen
+
+
+h_reference_compact_token_is_accepted.seed_fn = _seed_foreign_spelling(len(KEYS))
+h_reference_flattened_token_is_accepted.seed_fn = _seed_foreign_spelling(5)
